@@ -12,7 +12,7 @@ import (
 )
 
 func init() {
-	register("C08", []string{"kai/state/statedb.go", "kai/state/journal.go", "kai/state/state_object.go", "kai/state/access_list.go", "kai/state/transient_storage.go"}, runC08)
+	register("C08", []string{"kai/state/statedb.go", "kai/state/journal.go", "kai/state/state_object.go", "kai/state/access_list.go", "kai/state/transient_storage.go", "kai/state/snapshot/difflayer.go", "kai/state/snapshot/disklayer.go", "kai/state/snapshot/snapshot.go"}, runC08)
 }
 
 // journalled state: fields whose value a getter can observe between two finalisations
@@ -294,4 +294,5 @@ func runC08(c *Ctx) {
 	c08Writers(c, reverts)
 	c08Mechanics(c)
 	c08Copy(c)
+	c08Snapshot(c)
 }
